@@ -53,6 +53,60 @@ E["C12"] = dict(
     note="Means of continuous data are checked to 2^-12 and predict on continuous/f32 data to 2^-8 only; random seedings are sampled by repetition and enumerated only in the model.",
     technique="TLA+/TLC: design models with exact rational arithmetic, predicates shared between model invariants and trace validation, spec->impl replay through the real BBD tree, impl->spec validation of recorded events")
 
+E["C01"] = dict(
+    level="exploration", ref="DESIGN.md §3 C01",
+    text="Coarse exploration: every factor, inverse and solve contract of C01 (LU, QR, Cholesky, SVD) is evaluated by TLC on integer-valued matrices of order <= 8 in f64 and f32 (also rescaled by exact powers of two) at about 2^-10 relative to ||A||. Rank, conditioning and definiteness premises are certified exactly inside the TLA+ spec; the Cholesky error clause is decided exactly by principal minors; exact-rational design models of lu_mut and cholesky_mut are model-checked against the same predicates and replayed through the real code.",
+    note="Machine-precision accuracy, orders above 8, condition numbers above 2^12 and graded spectra are not decided (TLC has 32-bit integers and no reals).",
+    technique=TECH_B)
+
+E["C02"] = dict(
+    level="exploration", ref="DESIGN.md §3 C02",
+    text="Coarse exploration: symmetric and general eigen-contracts (e == 0, ordering, V'V = I, AV = VD; conjugate pairs bit-exact, trace identities, A v = d v for real eigenvalues) are evaluated by TLC at about 2^-10 on integer matrices of order <= 8 in f64 and f32, across the families listed in the statement; a closed-form 2x2 model checks the predicates and is replayed through the real evd.",
+    note="Rounding-level accuracy, n > 8 and strong imbalance are not decided. Inputs on which evd(false) panics (known finding: hqr iteration budget) are not judged beyond the panic.",
+    technique=TECH_B)
+
+E["C03"] = dict(
+    level="model_checking", ref="DESIGN.md §3 C03/C20",
+    text="Every BaseMatrix/BaseVector/stats/high-order operation of DenseMatrix<f64|f32> and Vec<T> is specified once in MatrixADT.tla on the row-major logical view (about 150 operators, shape contracts, the panic class, exact fractions for mean/var/cov/scale) and validated by TLC on recorded op-programs (shapes 1..12, mixed-sign, all-negative, incompatible-shape calls, offsets to 1e8) and on programs drawn from the model-checked register-file state machine (about 60 algebraic laws as invariants); a layout model checks that the transcribed column-major methods refine the ADT.",
+    note="Real-valued results are judged at 2^-10 (var/std at 2^-10*spread^2); softmax by range, sum and monotonicity; argmax ties and unique order are unconstrained; exp/pow with non-integer exponents and rand are not covered.",
+    technique="TLA+ ADT semantics + laws model-checked by TLC; TLC trace validation of Rust-recorded op-programs; TLC-generated programs replayed on the real types")
+
+E["C04"] = dict(
+    level="model_checking", ref="DESIGN.md §3 C04",
+    text="Nearest-neighbour results of LinearKNNSearch and CoverTree (find, find_radius, error cases) and k-NN classifier/regressor predictions are judged by TLA+ predicates (IsKnn, IsRadius, PredClassOK, PredRegOK) that TLC evaluates on every call recorded from the real code: exhaustive over all multisets of <=3 (quick) / <=6 (thorough) points of the 3x3 lattice x 13 queries x 4 metrics x every k and radius, plus seeded random data up to 200 points x 6 dimensions. The heap, linear-search and cover-tree design models are model-checked and replayed state by state through the real code.",
+    note="Lattice distances are compared through exact integer keys and continuous ones through dense ranks. Distance weighting is checked for Manhattan and Hamming only; Mahalanobis, f32 and more than 200 points are not covered.",
+    technique="TLA+ predicates and implementation-shaped design models (HeapSelect, LinearFind, CoverTree) checked by TLC, with bidirectional binding: TLC-enumerated inputs replayed through the real code, ndjson traces validated by KnnTrace.tla")
+
+E["C05"] = dict(
+    level="model_checking", ref="DESIGN.md §3 C05",
+    text="TLC model-checks an implementation-shaped model of greedy breadth-first tree growth (split sweep, skips, guards, tie-break, depth counter; every tie order of the pre-sort) for every training multiset up to 4/5 rows x criteria x limits, and a model of quick_argsort_mut. The same predicates (routing, leaf content, leaf size, depth, greedy optimality and completeness by exact rational comparison, determinism, 2^j scale invariance) validate events recorded from the real fit/predict of both trees, with every fit repeated and rescaled.",
+    note="Trusted: TLC, the Json module, harness projections (exact integers, joint dense ranks, fx16, bit signatures), serde dumps. Optimality is decided only at nodes of <= 10 rows for entropy and <= 64 rows for regression; f32 trees not exercised.",
+    technique="TLA+ model checking (TLC) of TreeGrow/TreeArgSort against TreeSpec predicates, plus TLC trace validation of recorded real executions, including replay of model-generated inputs")
+
+E["C06"] = dict(
+    level="model_checking", ref="DESIGN.md §3 C06",
+    text="TLC model-checks three design models against the predicates of Forest.tla: the vote/mean/OOB aggregation loops (every forest of <=3 trees over the configured rows), both bootstrap samplers (every draw sequence, n<=5/6, 3 classes) and the Fit(key, digest) history machine (all interleavings). Every aggregation terminal state is assembled as a real forest via serde and run through the real predict/predict_oob, and 12k/40k recorded real fits (settings x 2 seeds x 2 fits, interleaved) are validated by the same predicates.",
+    note="Trusted: TLC, the Json module, the serde dump as the view of trees[]/samples[], member trees re-queried through the public DecisionTree* predict, a 128-bit FNV digest. Seeds are sampled; regression clauses are decided to 2^-16; f32 is not exercised.",
+    technique="TLA+ model checking (TLC) of the ForestAgg/ForestBoot/ForestHist design models, spec->impl replay of every model terminal state through the real aggregation code, and TLC trace validation of recorded real fits")
+
+E["C10"] = dict(
+    level="model_checking", ref="DESIGN.md §3 C10",
+    text="Model checking of the visiting-order nondeterminism (every tuple of permutations for n<=4/5 is printed by TLC and injected into the real SVC trainer through the cfg-guarded hook) and of abstract design models of both trainers (dual feasibility for every schedule, pair and step); every recorded SVC/SVR fit and kernel evaluation is validated by TLC against fixed-point contracts (box, sum zero, direction by class, support vectors are rows, kernel expansion, label rule, epsilon-insensitive KKT within tol, kernel closed forms/symmetry/PSD necessary conditions).",
+    note="Numeric clauses are coarse: 2^-16 for box/sum/KKT, about 2^-10*sum|K| for the expansion. RBF and sigmoid closed forms are pinned by order, functional equations and Taylor enclosures only. PSD is checked by necessary conditions. Schedules for n > 5 and all data and parameters are sampled.",
+    technique="TLA+/TLC: SvmSchedule, Lasvm and SvrSmo model-checked exhaustively; SvmContracts and Kernels predicates evaluated by SvmTrace on events recorded from the real code, schedules injected through the cfg-guarded hook")
+
+E["C13"] = dict(
+    level="model_checking", ref="DESIGN.md §3 C13",
+    text="TLC model-checks the transcribed DBSCAN fit loop (every neighbour-query order for n<=4/5, linear order for all sequences of <=5/7 points on 1-D and <=4/6 on 2-D lattices) and a model of predict against IsDensityClustering / PredictOK plus structural and termination invariants; every model input and seeded random sets of 1..150 points in 1..4 dimensions are run through the real DBSCAN with both back ends (3 metrics, f32/f64, dyadic scales) and validated by TLC with the same predicates, including back-end independence.",
+    note="Exact on integer-lattice x power-of-two data only; non-dyadic continuous coordinates are not covered. Trusted: TLC and the Json module, the harness's integer projection, the serde dump of cluster_labels/num_classes.",
+    technique="TLA+ design models (Dbscan.tla, DbscanPredict.tla) model-checked by TLC, spec->impl replay of all model inputs, and TLC trace validation of recorded real executions against DbscanProps.tla")
+
+E["C20"] = dict(
+    level="model_checking", ref="DESIGN.md §3 C03/C20",
+    text="The op-programs of the MatrixADT state machine are replayed on ndarray::Array2 and nalgebra::DMatrix (and their vector types), including non-row-major operands, validated per back end against MatrixADT and pairwise by BackendAgree.tla; 35 estimators, decompositions and metrics are compared on identical data across the three back ends under a watchdog; MatrixADTLayout.tla model-checks the layout conditions under which the transcribed binding methods are correct.",
+    note="f64 only; agreement is exact for discrete observables and 2-4 units of 2^-10 for real-valued ones; randomised estimators (k-means, SVC) are not compared.",
+    technique="TLA+ ADT semantics + layout model checked by TLC; TLC trace validation of per-back-end op-programs and of cross-back-end agreement events")
+
 
 def main():
     props = [json.loads(l) for l in open(os.path.join(VERIF, "properties.jsonl"))]
